@@ -580,6 +580,10 @@ impl RefState {
             let mut pool = self.pools.get(&k).copied().unwrap_or_else(PoolState::new_empty);
             let before = pool;
             let liqs = pool.deposit(tl, tr);
+            // liquidity the pool's 128-bit record cannot hold is not handed out: the deposits stay as they are (finding Z)
+            if before.liqs.checked_add(liqs) != Some(pool.liqs) {
+                continue;
+            }
             self.pools.insert(k, pool);
             // shares are proportional to sqrt(left)*sqrt(right); the divisor is the larger of that term over the totals and
             // the sum of the individual terms, so that the shares never exceed the liquidity minted (C16)
